@@ -1,3 +1,320 @@
 import B6.Driver.Common
-/-! Driver for C24 — stub (the check for this property is not built yet). -/
-def main : IO Unit := B6.Driver.run { σ := Unit, init := (), step := fun s _ _ => (s, .bad) }
+import B6.Model.Collections
+import B6.Model.CollectionsExpr
+import B6.Spec.Collections
+/-!
+Driver for C24 (stateless: every line is self-contained).
+
+values   `i<int>` | `f<code>` (order-preserving float code) | `s<ascii word, may be empty>` |
+         `p<type>/<namespace>/<value>` | `b0` `b1`;   items `key:value`
+expr     `(arr it …)` | `(take E n)` | `(filter E FN1)` | `(map E FN1)` | `(mapitems E FN2)` |
+         `(flatten E …)` | `(join E E)`        (tokens separated by blanks, `)` is its own token)
+FN1      `gtc=<val>` `cgt=<val>` `addc=<int>` `tostr` `id` `konst=<val>`;   FN2  `swap` `incv=<int>` `first`
+
+ops
+  `ev id E`              answer `count=<n|-> items=[it …] end=<done|err>` | `error` | `panic`
+  `ev count E`           answer `<int>` | `error` | `panic`                       (library function `count`)
+  `ev top=<n> E`         answer as `ev id` (order matters)
+  `ev sumbykey|countvalues|countkeys|countvalidkeys E`   answer as `ev id`, items sorted by key token
+  `fv <0|1> [k …] [v …] <probe>`    answer `some <v>` | `none`      (CollectionFeature.FindValue; 1 = Sort()ed)
+  `fvs <0|1> [k …] [v …] <probe>`   answer `[v …]`                  (FindValues)
+
+Verdict: the implementation's answer is compared with the list reference (`Spec.Collections`) — a mismatch
+is `propfail <function>`; `count_agrees` fails when a reported count differs from the number of items
+yielded; `top` answers are judged by `isTopOfB` (ties leave the keys open).  Then the answer is compared
+with the iterator-style model (`diff`).
+-/
+open B6.Driver B6.Model.Collections B6.Spec.Collections
+namespace B6.Driver.C24
+
+/-! ### parsing -/
+
+def parseInt (s : String) : Option Int := s.toInt?
+
+def parseVal (s : String) : Option Val :=
+  match s.toList with
+  | 'i' :: r => (parseInt (String.ofList r)).map .int
+  | 'f' :: r => (parseInt (String.ofList r)).map .float
+  | 's' :: r => some (.str (String.ofList r))
+  | 'b' :: r => if r == ['1'] then some (.bool true) else if r == ['0'] then some (.bool false) else none
+  | 'p' :: r =>
+    match (String.ofList r).splitOn "/" with
+    | [t, ns, v] => do
+      let t ← t.toNat?
+      let v ← v.toNat?
+      pure (.fid t ns v)
+    | _ => none
+  | _ => none
+
+def parseItem (s : String) : Option Item :=
+  match s.splitOn ":" with
+  | [k, v] => do
+    let k ← parseVal k
+    let v ← parseVal v
+    pure (k, v)
+  | _ => none
+
+def parseFn1 (s : String) : Option Fn1 :=
+  match s.splitOn "=" with
+  | ["tostr"] => some .tostr
+  | ["id"] => some .ident
+  | ["gtc", v] => (parseVal v).map .gtc
+  | ["cgt", v] => (parseVal v).map .cgt
+  | ["addc", v] => (parseInt v).map .addc
+  | ["konst", v] => (parseVal v).map .konst
+  | _ => none
+
+def parseFn2 (s : String) : Option Fn2 :=
+  match s.splitOn "=" with
+  | ["swap"] => some .swap
+  | ["first"] => some .first
+  | ["incv", v] => (parseInt v).map .incv
+  | _ => none
+
+/-- items up to the closing `)` -/
+def parseItems : List String → List Item → Option (List Item × List String)
+  | ")" :: rest, acc => some (acc.reverse, rest)
+  | t :: rest, acc => match parseItem t with
+    | some it => parseItems rest (it :: acc)
+    | none => none
+  | [], _ => none
+
+def close : List String → Option (List String)
+  | ")" :: rest => some rest
+  | _ => none
+
+mutual
+def parseCo : Nat → List String → Option (Co × List String)
+  | 0, _ => none
+  | f + 1, toks =>
+    match toks with
+    | "(arr" :: rest => (parseItems rest []).map fun (its, r) => (.arr its, r)
+    | "(take" :: rest => do
+      let (c, r) ← parseCo f rest
+      match r with
+      | n :: r => do
+        let n ← parseInt n
+        let r ← close r
+        pure (.take c n, r)
+      | [] => none
+    | "(filter" :: rest => do
+      let (c, r) ← parseCo f rest
+      match r with
+      | p :: r => do
+        let p ← parseFn1 p
+        let r ← close r
+        pure (.filter c p, r)
+      | [] => none
+    | "(map" :: rest => do
+      let (c, r) ← parseCo f rest
+      match r with
+      | p :: r => do
+        let p ← parseFn1 p
+        let r ← close r
+        pure (.map c p, r)
+      | [] => none
+    | "(mapitems" :: rest => do
+      let (c, r) ← parseCo f rest
+      match r with
+      | p :: r => do
+        let p ← parseFn2 p
+        let r ← close r
+        pure (.mapItems c p, r)
+      | [] => none
+    | "(flatten" :: rest => (parseCoList f rest).map fun (cs, r) => (.flatten cs, r)
+    | "(join" :: rest => do
+      let (b, r) ← parseCo f rest
+      let (j, r) ← parseCo f r
+      let r ← close r
+      pure (.join b j, r)
+    | _ => none
+def parseCoList : Nat → List String → Option (CoList × List String)
+  | 0, _ => none
+  | f + 1, toks =>
+    match toks with
+    | ")" :: rest => some (.nil, rest)
+    | _ => do
+      let (c, r) ← parseCo f toks
+      let (cs, r) ← parseCoList f r
+      pure (.cons c cs, r)
+end
+
+/-! ### rendering -/
+
+def renderVal : Val → String
+  | .int i => s!"i{i}"
+  | .float c => s!"f{c}"
+  | .str s => "s" ++ s
+  | .fid t ns v => s!"p{t}/{ns}/{v}"
+  | .bool b => if b then "b1" else "b0"
+
+def renderItem (it : Item) : String := renderVal it.1 ++ ":" ++ renderVal it.2
+
+def renderFin : Fin → String
+  | .done => "done"
+  | .err => "err"
+  | .nofuel => "hang"
+
+def renderDen (d : Den) : String :=
+  let c := match d.count with
+    | some n => toString n
+    | none => "-"
+  s!"count={c} items={renderList (d.items.map renderItem)} end={renderFin d.fin}"
+
+/-- eager results come out of a Go map: both sides sort by the key token -/
+def renderCounts (l : List (Val × Int)) : String :=
+  let a := (l.map fun (k, c) => (renderVal k, renderVal (.int c))).toArray.qsort (fun a b => a.1 < b.1)
+  s!"count={a.size} items={renderList (a.toList.map fun (k, c) => k ++ ":" ++ c)} end=done"
+
+def dedupKeys (ks : List Val) : List Val :=
+  ks.foldl (fun acc k => if acc.contains k then acc else acc ++ [k]) []
+
+/-- parse `count=… items=[…] end=…` back -/
+def parseAnswer (s : String) : Option (Option Int × List Item × String) :=
+  match s.splitOn " items=[" with
+  | [c, rest] =>
+    match rest.splitOn "] end=" with
+    | [its, e] => do
+      let cnt ← if c == "count=-" then some none else (parseInt (sdrop c 6)).map some
+      let its ← (words its).mapM parseItem
+      pure (cnt, its, e)
+    | _ => none
+  | _ => none
+
+def judge (impl spec model clause : String) : Verdict :=
+  if impl != spec then .propfail clause
+  else if impl != model then .diff model
+  else .ok
+
+/-- `count_agrees` on the implementation's own answer -/
+def countAgrees (impl : String) : Bool :=
+  match parseAnswer impl with
+  | some (some n, its, "done") => n == its.length
+  | _ => true
+
+def rootClause : Co → String
+  | .arr _ => "collection"
+  | .take .. => "take"
+  | .filter .. => "filter"
+  | .map .. => "map"
+  | .mapItems .. => "map_items"
+  | .flatten .. => "flatten"
+  | .join .. => "join_missing"
+
+def endOfFin? (f : Fin) : Option End := f.toEnd?
+
+def evalRoot (root : String) (c : Co) (impl : String) : Verdict :=
+  let m := denote c
+  let s := specDen c
+  if root == "id" then
+    if !countAgrees impl then .propfail "count_agrees"
+    else judge impl (renderDen s) (renderDen m) (rootClause c)
+  else if root == "count" then
+    -- documented: the number of items in the collection.  When iterating the collection ends in an error the
+    -- property demands nothing (a reported count is returned without iterating): model comparison only.
+    let modelAns := match goCount m.count m.items m.fin with
+      | some n => toString n
+      | none => "error"
+    let specAns := match s.fin with
+      | .done => toString s.items.length
+      | _ => modelAns
+    judge impl specAns modelAns "count_agrees"
+  else
+    match s.fin.toEnd?, m.fin.toEnd? with
+    | some se, some me =>
+      match root.splitOn "=" with
+      | ["top", n] =>
+        match parseInt n with
+        | none => .bad
+        | some n =>
+          let modelAns := match top goHeap m.items me n with
+            | .ok its => renderDen ⟨its, .done, some its.length⟩
+            | .error => "error"
+            | .panic => "panic"
+          -- the reference: an error for non-numeric / mixed values or a failing inner iteration, else IsTopOf
+          let kindsOk := match s.items with
+            | [] => true
+            | (_, v) :: _ => (valNum v).isSome && s.items.all fun it => sameKind v it.2
+          if se == .err || !kindsOk then judge impl "error" modelAns "top"
+          else match parseAnswer impl with
+            | some (cnt, its, "done") =>
+              if cnt != some (its.length : Int) then .propfail "count_agrees"
+              else if !isTopOfB n s.items its then .propfail "top"
+              else if impl != modelAns then .diff modelAns else .ok
+            | _ => .propfail "top"
+      | ["sumbykey"] =>
+        let modelAns := match sumByKey m.items me with
+          | some l => renderCounts l
+          | none => "error"
+        let ok := se == .done && s.items.all fun it => match it.2 with
+          | .int _ => true
+          | _ => false
+        let specAns := if ok then
+            renderCounts ((dedupKeys (s.items.map (·.1))).map fun k => (k, wrap64 (sumFor k s.items)))
+          else "error"
+        judge impl specAns modelAns "sum_by_key"
+      | ["countvalues"] =>
+        let modelAns := match countValues m.items me with
+          | some l => renderCounts l
+          | none => "error"
+        let specAns := if se == .done then
+            renderCounts ((dedupKeys (s.items.map (·.2))).map fun k => (k, weightFor (·.2) (fun _ => 1) k s.items))
+          else "error"
+        judge impl specAns modelAns "count_values"
+      | ["countkeys"] =>
+        let modelAns := match countKeys m.items me with
+          | some l => renderCounts l
+          | none => "error"
+        let specAns := if se == .done then
+            renderCounts ((dedupKeys (s.items.map (·.1))).map fun k => (k, weightFor (·.1) (fun _ => 1) k s.items))
+          else "error"
+        judge impl specAns modelAns "count_keys"
+      | ["countvalidkeys"] =>
+        let modelAns := match countValidKeys m.items me with
+          | some l => renderCounts l
+          | none => "error"
+        let specAns := if se == .done then
+            renderCounts ((dedupKeys (s.items.map (·.1))).map fun k => (k, weightFor (·.1) validDelta k s.items))
+          else "error"
+        judge impl specAns modelAns "count_valid_keys"
+      | _ => .bad
+    | _, _ => .diff "model-out-of-fuel"
+
+def parseVals (s : String) : Option (List Val) := do
+  let ws ← parseBracket s
+  ws.mapM parseVal
+
+def step (_ : Unit) (op impl : String) : Unit × Verdict :=
+  match words op with
+  | "ev" :: root :: toks =>
+    match parseCo (toks.length + 1) toks with
+    | some (c, []) => ((), evalRoot root c impl)
+    | _ => ((), .bad)
+  | kind :: sorted :: _ =>
+    if kind != "fv" && kind != "fvs" then ((), .bad) else
+    match op.splitOn "[" with
+    | [_, ks, rest] =>
+      match rest.splitOn "]" with
+      | [vs, probe] =>
+        match parseVals ("[" ++ ks), parseVals ("[" ++ vs ++ "]"), parseVal (strim probe) with
+        | some ks, some vs, some probe =>
+          let sorted := sorted == "1"
+          if kind == "fv" then
+            let r (o : Option Val) := match o with
+              | some v => "some " ++ renderVal v
+              | none => "none"
+            ((), judge impl (r (scanFirst ks.toArray vs.toArray probe))
+              (r (findValue sorted ks.toArray vs.toArray probe)) "find_value")
+          else
+            ((), judge impl (renderList ((scanAll ks.toArray vs.toArray probe).map renderVal))
+              (renderList ((findValues sorted ks.toArray vs.toArray probe).map renderVal)) "find_values")
+        | _, _, _ => ((), .bad)
+      | _ => ((), .bad)
+    | _ => ((), .bad)
+  | _ => ((), .bad)
+
+def family : Family := { σ := Unit, init := (), step := step }
+
+end B6.Driver.C24
+
+def main : IO Unit := B6.Driver.run B6.Driver.C24.family
